@@ -1,1 +1,527 @@
-// stub
+// Sequencer harness root (child module of `crate::app`, so `App`'s private methods and fields are
+// reachable). Shared infrastructure: chain universes, block driver, state dump; the per-property
+// stages live in the files included below.
+#![allow(clippy::all, clippy::pedantic, dead_code, unused_imports)]
+
+#[path = "/verif/engine/mod.rs"]
+pub(crate) mod engine;
+
+#[path = "/verif/harness/sequencer/tlevel.rs"]
+mod tlevel;
+
+use std::{
+    collections::{
+        BTreeMap,
+        HashMap,
+    },
+    sync::{
+        Arc,
+        LazyLock,
+    },
+    time::Duration,
+};
+
+use astria_core::{
+    crypto::SigningKey,
+    primitive::v1::{
+        asset::{
+            Denom,
+            IbcPrefixed,
+        },
+        Address,
+        RollupId,
+    },
+    protocol::transaction::v1::{
+        action::{
+            FeeAssetChange,
+            InitBridgeAccount,
+        },
+        Action,
+        TransactionBody,
+    },
+    Protobuf as _,
+};
+use bytes::Bytes;
+use cnidarium::{
+    Snapshot,
+    StateDelta,
+    StateRead,
+    StateWrite,
+    Storage,
+};
+use futures::StreamExt as _;
+use prost::Message as _;
+use tendermint::{
+    abci,
+    abci::types::{
+        CommitInfo,
+        ExtendedCommitInfo,
+    },
+    account,
+    block::Height,
+    Hash,
+    Time,
+};
+
+use super::{
+    App,
+    BlockData,
+};
+use crate::{
+    accounts::StateWriteExt as _,
+    app::StateReadExt as _,
+    test_utils::{
+        astria_address,
+        nria,
+        Fixture,
+        ALICE,
+        ALICE_ADDRESS_BYTES,
+        BOB,
+        CAROL,
+        IBC_SUDO,
+        SUDO,
+        SUDO_ADDRESS,
+    },
+};
+
+// ---------------------------------------------------------------------------------------------
+// Keys and well-known values
+// ---------------------------------------------------------------------------------------------
+
+fn key_from_seed(seed: u8) -> SigningKey {
+    SigningKey::from([seed; 32])
+}
+
+/// Bridge withdrawer.
+pub(crate) static W: LazyLock<SigningKey> = LazyLock::new(|| key_from_seed(0x71));
+/// Bridge accounts (an InitBridgeAccount must be signed by the bridge account itself).
+pub(crate) static BR1: LazyLock<SigningKey> = LazyLock::new(|| key_from_seed(0x72));
+pub(crate) static BR2: LazyLock<SigningKey> = LazyLock::new(|| key_from_seed(0x73));
+pub(crate) static BR3: LazyLock<SigningKey> = LazyLock::new(|| key_from_seed(0x74));
+/// A funded account that holds no privilege and is no validator.
+pub(crate) static DAVE: LazyLock<SigningKey> = LazyLock::new(|| key_from_seed(0x75));
+/// The account that sudo / ibc sudo / bridge sudo privileges are handed to in "former holder" runs.
+pub(crate) static EVE: LazyLock<SigningKey> = LazyLock::new(|| key_from_seed(0x76));
+
+pub(crate) fn addr(k: &SigningKey) -> Address {
+    astria_address(&k.address_bytes())
+}
+
+pub(crate) fn r1() -> RollupId {
+    RollupId::new([0xa1; 32])
+}
+
+pub(crate) fn r2() -> RollupId {
+    RollupId::new([0xa2; 32])
+}
+
+pub(crate) fn r3() -> RollupId {
+    RollupId::new([0xa3; 32])
+}
+
+/// Second allowed fee asset.
+pub(crate) fn fee2() -> Denom {
+    "fee2".parse().unwrap()
+}
+
+/// An asset that is not a fee asset.
+pub(crate) fn other_asset() -> Denom {
+    "other".parse().unwrap()
+}
+
+pub(crate) fn named_keys() -> Vec<(&'static str, SigningKey)> {
+    vec![
+        ("ALICE", ALICE.clone()),
+        ("BOB", BOB.clone()),
+        ("CAROL", CAROL.clone()),
+        ("SUDO", SUDO.clone()),
+        ("IBC_SUDO", IBC_SUDO.clone()),
+        ("W", W.clone()),
+        ("BR1", BR1.clone()),
+        ("BR2", BR2.clone()),
+        ("BR3", BR3.clone()),
+        ("DAVE", DAVE.clone()),
+        ("EVE", EVE.clone()),
+    ]
+}
+
+pub(crate) fn name_of(address_bytes: &[u8]) -> String {
+    for (n, k) in named_keys() {
+        if k.address_bytes().as_slice() == address_bytes {
+            return n.to_string();
+        }
+    }
+    engine::report::hex(address_bytes)
+}
+
+pub(crate) const GENESIS_SMALL: u128 = 1_000_000_000_000_000;
+
+pub(crate) fn block_time(height: u64) -> Time {
+    Time::from_unix_timestamp(1_744_036_762, 123_456_789)
+        .unwrap()
+        .checked_add(Duration::from_secs(height))
+        .unwrap()
+}
+
+pub(crate) fn proposer() -> account::Id {
+    ALICE_ADDRESS_BYTES.to_vec().try_into().unwrap()
+}
+
+// ---------------------------------------------------------------------------------------------
+// Transactions
+// ---------------------------------------------------------------------------------------------
+
+/// Signs a transaction; `None` if the actions cannot be bundled (mixed action groups).
+pub(crate) fn sign_tx(signer: &SigningKey, nonce: u32, actions: Vec<Action>) -> Option<Bytes> {
+    sign_tx_for_chain(signer, nonce, actions, "test")
+}
+
+pub(crate) fn sign_tx_for_chain(signer: &SigningKey, nonce: u32, actions: Vec<Action>, chain_id: &str) -> Option<Bytes> {
+    let body = TransactionBody::builder()
+        .nonce(nonce)
+        .chain_id(chain_id.to_string())
+        .actions(actions)
+        .try_build()
+        .ok()?;
+    Some(Bytes::from(body.sign(signer).into_raw().encode_to_vec()))
+}
+
+// ---------------------------------------------------------------------------------------------
+// State dump
+// ---------------------------------------------------------------------------------------------
+
+#[derive(Clone, Debug, Default, PartialEq, Eq, Hash)]
+pub(crate) struct Dump {
+    pub verifiable: BTreeMap<String, Vec<u8>>,
+    pub nonverifiable: BTreeMap<Vec<u8>, Vec<u8>>,
+    /// `fees/block` of the ephemeral object store, sorted.
+    pub block_fees: BTreeMap<String, u128>,
+    /// cached deposits of the ephemeral object store, rendered and sorted.
+    pub deposits: Vec<String>,
+}
+
+pub(crate) async fn dump_state<S: StateRead>(state: &S) -> Dump {
+    use crate::{
+        bridge::StateReadExt as _,
+        fees::StateReadExt as _,
+    };
+    let mut d = Dump::default();
+    let mut stream = Box::pin(state.prefix_raw(""));
+    while let Some(item) = stream.next().await {
+        let (k, v) = item.expect("prefix_raw item");
+        d.verifiable.insert(k, v);
+    }
+    drop(stream);
+    let mut stream = Box::pin(state.nonverifiable_prefix_raw(b""));
+    while let Some(item) = stream.next().await {
+        let (k, v) = item.expect("nonverifiable_prefix_raw item");
+        d.nonverifiable.insert(k, v);
+    }
+    drop(stream);
+    for (asset, amount) in state.get_block_fees() {
+        d.block_fees.insert(asset.to_string(), amount);
+    }
+    let mut deposits: Vec<String> = state
+        .get_cached_block_deposits()
+        .into_iter()
+        .flat_map(|(_, ds)| ds.into_iter().map(|dep| deposit_repr(&dep)))
+        .collect();
+    deposits.sort();
+    d.deposits = deposits;
+    d
+}
+
+pub(crate) fn deposit_repr(dep: &astria_core::sequencerblock::v1::block::Deposit) -> String {
+    format!(
+        "bridge={} rollup={} amount={} asset={} dest={} tx={} idx={}",
+        engine::report::hex(&dep.bridge_address.bytes()),
+        engine::report::hex(dep.rollup_id.as_bytes()),
+        dep.amount,
+        dep.asset,
+        dep.destination_chain_address,
+        dep.source_transaction_id,
+        dep.source_action_index
+    )
+}
+
+fn tail_u128(v: &[u8]) -> Option<u128> {
+    if v.len() < 16 {
+        return None;
+    }
+    Some(u128::from_le_bytes(v[v.len() - 16..].try_into().unwrap()))
+}
+
+/// Decoded view of the value-carrying parts of a dump.
+#[derive(Clone, Debug, Default, PartialEq, Eq)]
+pub(crate) struct Ledger {
+    /// (base64 account, asset key) -> balance
+    pub balances: BTreeMap<(String, String), u128>,
+    /// (channel, asset key) -> escrow
+    pub escrow: BTreeMap<(String, String), u128>,
+    /// base64 account -> nonce
+    pub nonces: BTreeMap<String, u32>,
+}
+
+impl Dump {
+    pub(crate) fn ledger(&self) -> Ledger {
+        let mut l = Ledger::default();
+        for (k, v) in &self.verifiable {
+            if let Some(rest) = k.strip_prefix("accounts/") {
+                if let Some((acct, asset)) = rest.split_once("/balance/") {
+                    l.balances
+                        .insert((acct.to_string(), asset.to_string()), tail_u128(v).expect("balance value"));
+                } else if let Some(acct) = rest.strip_suffix("/nonce") {
+                    let n = u32::from_le_bytes(v[v.len() - 4..].try_into().unwrap());
+                    l.nonces.insert(acct.to_string(), n);
+                }
+            } else if let Some(rest) = k.strip_prefix("ibc/channel-") {
+                if let Some((chan, asset)) = rest.split_once("/balance/") {
+                    l.escrow
+                        .insert((format!("channel-{chan}"), asset.to_string()), tail_u128(v).expect("escrow value"));
+                }
+            }
+        }
+        l
+    }
+
+    pub(crate) fn canon(&self) -> u128 {
+        engine::report::h128(self)
+    }
+
+    /// Keys whose value differs between `self` and `other` (verifiable + nonverifiable).
+    pub(crate) fn diff_keys(&self, other: &Dump) -> Vec<String> {
+        let mut out = Vec::new();
+        for (k, v) in &self.verifiable {
+            if other.verifiable.get(k) != Some(v) {
+                out.push(k.clone());
+            }
+        }
+        for k in other.verifiable.keys() {
+            if !self.verifiable.contains_key(k) {
+                out.push(k.clone());
+            }
+        }
+        for (k, v) in &self.nonverifiable {
+            if other.nonverifiable.get(k) != Some(v) {
+                out.push(format!("nv:{}", String::from_utf8_lossy(k)));
+            }
+        }
+        for k in other.nonverifiable.keys() {
+            if !self.nonverifiable.contains_key(k) {
+                out.push(format!("nv:{}", String::from_utf8_lossy(k)));
+            }
+        }
+        out.sort();
+        out.dedup();
+        out
+    }
+}
+
+pub(crate) fn b64(address_bytes: &[u8]) -> String {
+    use base64::{
+        display::Base64Display,
+        engine::general_purpose::URL_SAFE,
+    };
+    Base64Display::new(address_bytes, &URL_SAFE).to_string()
+}
+
+pub(crate) fn asset_key(denom: &Denom) -> String {
+    denom.to_ibc_prefixed().to_string()
+}
+
+// ---------------------------------------------------------------------------------------------
+// Chain universes and the block driver
+// ---------------------------------------------------------------------------------------------
+
+pub(crate) struct Chain {
+    pub fixture: Fixture,
+    pub next_height: u64,
+}
+
+pub(crate) struct BlockOutcome {
+    pub prepared: Vec<Bytes>,
+    pub response: abci::response::FinalizeBlock,
+    pub check_tx_rejected: usize,
+}
+
+impl Chain {
+    /// Fresh post-Blackburn chain with extra funded accounts, a second fee asset and a non-fee
+    /// asset.
+    pub(crate) async fn new() -> Self {
+        let mut fixture = Fixture::uninitialized(None).await;
+        let mut accounts: Vec<(Address, u128)> = vec![
+            (addr(&ALICE), crate::test_utils::TEN_QUINTILLION),
+            (addr(&BOB), crate::test_utils::TEN_QUINTILLION),
+            (addr(&CAROL), crate::test_utils::TEN_QUINTILLION),
+        ];
+        for k in [&*SUDO, &*IBC_SUDO, &*W, &*BR1, &*BR2, &*BR3, &*DAVE, &*EVE] {
+            accounts.push((addr(k), GENESIS_SMALL));
+        }
+        fixture.chain_initializer().with_genesis_accounts(accounts).init().await;
+        let next = fixture.run_until_blackburn_applied().await;
+        let mut chain = Self {
+            fixture,
+            next_height: next.value(),
+        };
+        // balances in assets other than the native one are part of the genesis configuration of
+        // this universe (the chain has no mint other than IBC)
+        let mut delta = chain.fixture.app.new_state_delta();
+        for k in [&*ALICE, &*BOB, &*CAROL, &*SUDO, &*W, &*BR1, &*DAVE] {
+            delta.put_account_balance(&k.address_bytes(), &fee2(), GENESIS_SMALL).unwrap();
+            delta.put_account_balance(&k.address_bytes(), &other_asset(), 1_000_000).unwrap();
+        }
+        let storage = chain.fixture.storage();
+        chain.fixture.app.apply_and_commit(delta, storage).await;
+        chain
+    }
+
+    pub(crate) fn app(&mut self) -> &mut App {
+        &mut self.fixture.app
+    }
+
+    pub(crate) async fn nonce_of(&self, k: &SigningKey) -> u32 {
+        use crate::accounts::StateReadExt as _;
+        self.fixture.state().get_account_nonce(&k.address_bytes()).await.unwrap()
+    }
+
+    /// Runs one block through CheckTx -> PrepareProposal -> FinalizeBlock -> Commit with the real
+    /// handlers; the block is whatever the proposer built from the mempool.
+    pub(crate) async fn run_block(&mut self, txs: Vec<Bytes>) -> BlockOutcome {
+        let height = self.next_height;
+        let mempool = self.fixture.mempool();
+        let metrics = self.fixture.metrics();
+        let mut rejected = 0;
+        for tx in txs {
+            let outcome =
+                crate::service::mempool::check_tx(tx, self.fixture.storage().latest_snapshot(), &mempool, metrics).await;
+            if !matches!(
+                outcome,
+                crate::service::mempool::CheckTxOutcome::AddedToPending(_)
+                    | crate::service::mempool::CheckTxOutcome::AddedToParked(_)
+            ) {
+                rejected += 1;
+            }
+        }
+        let storage = self.fixture.storage();
+        let prepare = abci::request::PrepareProposal {
+            max_tx_bytes: 1_000_000,
+            txs: vec![],
+            local_last_commit: Some(ExtendedCommitInfo {
+                votes: vec![],
+                round: 0u16.into(),
+            }),
+            misbehavior: vec![],
+            height: Height::try_from(height).unwrap(),
+            time: block_time(height),
+            next_validators_hash: Hash::default(),
+            proposer_address: proposer(),
+        };
+        let prepared = self.fixture.app.prepare_proposal(prepare, storage.clone()).await.expect("prepare_proposal");
+        let finalize = abci::request::FinalizeBlock {
+            hash: block_hash(height, 0),
+            height: Height::try_from(height).unwrap(),
+            time: block_time(height),
+            next_validators_hash: Hash::default(),
+            proposer_address: proposer(),
+            txs: prepared.txs.clone(),
+            decided_last_commit: CommitInfo {
+                votes: vec![],
+                round: 0u16.into(),
+            },
+            misbehavior: vec![],
+        };
+        let response = self.fixture.app.finalize_block(finalize, storage.clone()).await.expect("finalize_block");
+        self.fixture.app.commit(storage).await.expect("commit");
+        self.next_height += 1;
+        BlockOutcome {
+            prepared: prepared.txs,
+            response,
+            check_tx_rejected: rejected,
+        }
+    }
+
+    /// Initialises the bridge accounts BR1 (rollup r1) and BR2 (rollup r2), both for nria with
+    /// sudo SUDO and withdrawer W, and allows `fee2` as a fee asset.
+    pub(crate) async fn setup_bridges_and_fee_asset(&mut self) {
+        let init = |rollup_id| {
+            Action::InitBridgeAccount(InitBridgeAccount {
+                rollup_id,
+                asset: nria().into(),
+                fee_asset: nria().into(),
+                sudo_address: Some(*SUDO_ADDRESS),
+                withdrawer_address: Some(addr(&W)),
+            })
+        };
+        let txs = vec![
+            sign_tx(&BR1, self.nonce_of(&BR1).await, vec![init(r1())]).unwrap(),
+            sign_tx(&BR2, self.nonce_of(&BR2).await, vec![init(r2())]).unwrap(),
+            sign_tx(&SUDO, self.nonce_of(&SUDO).await, vec![Action::FeeAssetChange(FeeAssetChange::Addition(fee2()))])
+                .unwrap(),
+        ];
+        let out = self.run_block(txs).await;
+        assert_eq!(out.check_tx_rejected, 0, "setup transactions must pass CheckTx");
+        let ok = out.response.tx_results.iter().filter(|r| r.code.is_ok()).count();
+        assert_eq!(ok, out.response.tx_results.len(), "setup transactions must execute");
+        assert!(out.prepared.len() >= 5, "setup block must include the three transactions");
+    }
+
+    /// Positions the app at the start of the next block (upgrades + begin_block applied), and
+    /// returns the block's base state, detached from the app.
+    pub(crate) async fn begin_block_and_detach(&mut self) -> StateDelta<Snapshot> {
+        let height = self.next_height;
+        let storage = self.fixture.storage();
+        self.fixture.app.update_state_for_new_round(&storage);
+        self.fixture
+            .app
+            .pre_execute_transactions(BlockData {
+                misbehavior: vec![],
+                height: Height::try_from(height).unwrap(),
+                time: block_time(height),
+                next_validators_hash: Hash::default(),
+                proposer_address: proposer(),
+            })
+            .await
+            .expect("pre_execute_transactions");
+        let dummy = Arc::new(StateDelta::new(storage.latest_snapshot()));
+        Arc::try_unwrap(std::mem::replace(&mut self.fixture.app.state, dummy))
+            .ok()
+            .expect("exclusive ownership of the block state")
+    }
+}
+
+pub(crate) fn block_hash(height: u64, salt: u8) -> Hash {
+    use sha2::Digest as _;
+    let mut h = sha2::Sha256::new();
+    h.update(height.to_le_bytes());
+    h.update([salt]);
+    Hash::Sha256(h.finalize().into())
+}
+
+/// A fresh `App` on the same storage (what a restarted / other node has).
+pub(crate) async fn new_app_on(storage: &Storage) -> App {
+    use astria_core::upgrades::test_utils::UpgradesBuilder;
+    use telemetry::Metrics as _;
+    let metrics = Box::leak(Box::new(crate::Metrics::noop_metrics(&()).unwrap()));
+    let mempool = crate::mempool::Mempool::new(metrics, 100, 100);
+    let upgrades = UpgradesBuilder::new().set_aspen(Some(1)).set_blackburn(Some(3)).build();
+    App::new(
+        storage.latest_snapshot(),
+        mempool,
+        upgrades.into(),
+        crate::app::vote_extension::Handler::new(None),
+        metrics,
+    )
+    .await
+    .unwrap()
+}
+
+thread_local! {
+    pub(crate) static RT: tokio::runtime::Runtime = tokio::runtime::Builder::new_current_thread()
+        .enable_all()
+        .build()
+        .unwrap();
+}
+
+pub(crate) fn block_on<F: std::future::Future>(f: F) -> F::Output {
+    RT.with(|rt| rt.block_on(f))
+}
